@@ -24,4 +24,6 @@ pub fn unescaped_quoted_string(input: &str) -> Option<(String, String)> {
 }
 
 // Per-property hook modules (one `pub mod cxx;` line each, add-only).
+pub mod c20;
+pub mod c21;
 pub mod c23;
